@@ -991,14 +991,17 @@ impl Ctx {
         // (no comments), no block strings, no \u / \/ escapes; every type, value, argument list and directive of such
         // a text is an instance of C07_parse_render_{type,value,arguments,directive_*}
         let mut render_fragment = toks.is_some();
+        // ... and of the whole-document theorem C07_parse_render_operation_document: an executable document of that kind
+        // without import statements (the quoted strings are renderings of Strings.quote: no raw tab inside)
+        let mut render_document = toks.is_some() && matches!(kind, Kind::Op);
         if let Some(ts) = &toks {
             let hashes_src = src.matches('#').count();
             let mut hashes_tok = 0usize;
             for t in ts {
                 match t {
                     Tk::Block(_) => render_fragment = false,
-                    Tk::Str(x) => { hashes_tok += x.matches('#').count(); if x.contains("\\u") || x.contains("\\/") { render_fragment = false; } }
-                    Tk::ImportHash => hashes_tok += 1,
+                    Tk::Str(x) => { hashes_tok += x.matches('#').count(); if x.contains("\\u") || x.contains("\\/") { render_fragment = false; } if x.contains('\t') { render_document = false; } }
+                    Tk::ImportHash => { hashes_tok += 1; render_document = false; }
                     _ => {}
                 }
             }
@@ -1030,7 +1033,8 @@ impl Ctx {
         if block_raw_ne_cooked { self.bump("with_block_string_needing_cooking"); }
         if !canon_same { self.bump("canon_differs"); }
         if in_lang { self.bump("in_language"); if outcome != "ok" { self.bump("in_language_but_not_parsed"); }
-                     if render_fragment { self.bump("in_language_and_in_parse_render_fragment"); } }
+                     if render_fragment { self.bump("in_language_and_in_parse_render_fragment"); }
+                     if render_fragment && render_document { self.bump("in_language_and_whole_document_in_parse_render_fragment"); } }
         if tree.is_some() != (outcome != "err") { self.bump("INCONSISTENT_tree_vs_ast"); }
         if outcome == "ok" && nchars >= 8 { self.distinct.insert(src.to_string()); }
         if self.samples.len() < 6 && self.cases.len() % 97 == 5 { self.samples.push(d.clone()); }
